@@ -13,15 +13,18 @@
    the embedding.  All statements hold over an arbitrary field, for all sizes
    n, k, m, d (d = 0 included: everything is empty) and all matrices.
 
+   C14_dense_ts0_filter_step_is_embedded_isotropic_step assembles them into one
+   complete solver step (prediction, TS0 linearisation of an ARBITRARY
+   polynomial vector field, correction) of the uncalibrated filter.
+
    Not proved here (covered by the correspondence harness harness/c14.py on
-   the real implementation only): the embedding of the correction step needs
-   the inverse of S (x) I_d to be (S^-1) (x) I_d -- C14_inverse_of_embedding
-   proves exactly this for the certified inverse, and C14_revert_embeds lifts
-   it to the reversal of a conditional -- but the full multi-step solver
-   statement (all strategies, all calibration modes, adaptive step selection)
-   is established by comparison of the implementations, not by a theorem. *)
+   the real implementation only): the multi-step statement for the smoothers,
+   the MLE / dynamic calibration of dense vs isotropic, the TS1 cases
+   (decoupled problems, scalar Jacobians) and adaptive step selection.  The
+   building blocks for the smoothers (reversal and merge commute with the
+   embedding) and for the block-diagonal MLE scale (T14.d) are proved. *)
 From Coq Require Import List Arith.
-From PD Require Import Base.Field Base.Matrix Base.Solve Model.Gauss Model.Prior
+From PD Require Import Base.Field Base.Matrix Base.Solve Model.Gauss Model.Poly Model.Prior Model.Solver
   Proofs.GaussProofs Proofs.EmbedProofs.
 Import ListNotations.
 
@@ -123,6 +126,50 @@ Section C14.
       obsD = embed_normal nout d obs /\ bwD = embed_cond nout nin d bw.
   Proof. exact c_revert_embed. Qed.
 
+  (* the correction step: observed marginal and corrected state embed *)
+  Theorem C14_correction_embeds :
+    forall nin nout d (K : @cond F) (data : @mat F) (rv obs upd obsD updD : @normal F),
+      bayes_rule minv nin nout d K data rv = Some (obs, upd) ->
+      bayes_rule minv (nin * d) (nout * d) 1 (embed_cond nin nout d K) (ravel nout d data)
+                 (embed_normal nin d rv) = Some (obsD, updD) ->
+      obsD = embed_normal nout d obs /\ updD = embed_normal nin d upd.
+  Proof. exact bayes_rule_embed. Qed.
+
+  (* ---- T14.e: a whole step.  TS0 linearisation of an arbitrary polynomial
+     vector field of order k <= q+1 at an embedded state is the embedded
+     isotropic linearisation ... ---- *)
+  Theorem C14_dense_ts0_linearisation_is_embedded_isotropic_linearisation :
+    forall q d (o : @odeP F) (damp2 : F) (rv : @normal F) (t : F),
+      ode_k o <= S q ->
+      linearize (mkShape Dense q d) o TS0 damp2 [embed_normal (S q) d rv] t
+      = map (embed_cond (S q) 1 d) (linearize (mkShape Iso q d) o TS0 damp2 [rv] t).
+  Proof. exact linearize_ts0_embed. Qed.
+
+  (* ... the solver step of the uncalibrated filter with TS0 is prediction,
+     linearisation at the predicted mean, correction ... *)
+  Theorem C14_solver_step_is_ts0_filter_step :
+    forall (cf : @config F) (st : @sstate F) (dt : F),
+      cf_calib cf = CalNone -> cf_strat cf = Filter -> cf_lin cf = TS0 ->
+      option_map (fun s' => st_u s') (solver_step minv cf st dt)
+      = option_map snd (ts0_filter_step (cf_shape cf) (cf_ode cf) (cf_damp2 cf) (cf_base2 cf) dt
+                                        (fadd (st_t st) dt) (p_marg (st_post st))).
+  Proof. exact solver_step_is_ts0_filter_step. Qed.
+
+  (* ... and the dense step from an embedded state returns the embedding of the
+     isotropic step (observed marginal and new state), for every nonlinear
+     polynomial field, every q, d, dt, damping and common base scale, whenever
+     both steps exist *)
+  Theorem C14_dense_ts0_filter_step_is_embedded_isotropic_step :
+    forall q d (o : @odeP F) (damp2 : F) (base2D base2I : @vec F) (dt t' : F) (rv : @normal F)
+           (obs upd obsD updD : @fnormal F),
+      ode_k o <= S q ->
+      (forall a, a < d -> vget base2D a = vget base2I 0) ->
+      ts0_filter_step (mkShape Iso q d) o damp2 base2I dt t' [rv] = Some (obs, upd) ->
+      ts0_filter_step (mkShape Dense q d) o damp2 base2D dt t' [embed_normal (S q) d rv]
+      = Some (obsD, updD) ->
+      obsD = map (embed_normal 1 d) obs /\ updD = map (embed_normal (S q) d) upd.
+  Proof. exact dense_ts0_filter_step_is_embedded_isotropic_step. Qed.
+
   (* ---- T14.d: the block-diagonal MLE scale is the per-dimension split of the
      same residual energy: if the dense innovation covariance is diagonal with
      the blocks' variances on the diagonal and the residuals coincide, then the
@@ -166,5 +213,9 @@ Print Assumptions C14_embedding_commutes_with_application.
 Print Assumptions C14_embedding_commutes_with_merge.
 Print Assumptions C14_inverse_of_embedding.
 Print Assumptions C14_revert_embeds.
+Print Assumptions C14_correction_embeds.
+Print Assumptions C14_dense_ts0_linearisation_is_embedded_isotropic_linearisation.
+Print Assumptions C14_solver_step_is_ts0_filter_step.
+Print Assumptions C14_dense_ts0_filter_step_is_embedded_isotropic_step.
 Print Assumptions C14_blockdiag_mle_scale_is_split_of_dense_residual_energy.
 Print Assumptions C14_mean_of_block_means.
